@@ -7,6 +7,13 @@ VARIABLES c, done
 
 MemberOf(ob, suffix) == ob.members[CHOOSE i \in 1..Len(ob.members) : ob.members[i].abs.case = ob.case \o suffix]
 StmtValue(m) == LET all == Export(m, "$all") IN IF all.t = "obj" THEN ObjGet(all.es, "stmt") ELSE [t |-> "missing"]
+StmtIsDc(m) == \E i \in 1..Len(m.abs.sites) : m.abs.sites[i].id = "stmt" /\ m.abs.sites[i].kind = "dc"
+(* the typed defineComponent statement: alone it is augmented with exactly the declared props *)
+DcWhy(v) ==
+  IF v.t # "component" \/ v.eff.t # "obj" THEN "not-a-component"
+  ELSE IF ~ObjHas(v.eff.es, "props") \/ ObjGet(v.eff.es, "props").t # "propsopt" THEN "not-augmented:props"
+  ELSE LET pr == ObjGet(v.eff.es, "props") IN
+       IF {pr.es[i][1] : i \in 1..Len(pr.es)} # {"a", "n"} THEN "derived-wrong:props" ELSE ""
 StmtElem(m) == LET idx == {i \in 1..Len(m.abs.sites) : m.abs.sites[i].id = "stmt"} IN m.abs.sites[CHOOSE i \in idx : TRUE].elem
 
 RuntimeWhy(m, D) ==
@@ -25,6 +32,10 @@ Why(ob, D) ==
   IN
   IF RuntimeWhy(a, D) # "" THEN "alone:" \o RuntimeWhy(a, D)
   ELSE IF RuntimeWhy(k, D) # "" THEN (IF tdz /\ RuntimeWhy(k, D) = "runtime:ReferenceError:import" THEN "" ELSE "composed:" \o RuntimeWhy(k, D))
+  ELSE IF StmtIsDc(a) THEN
+         (IF DcWhy(StmtValue(a)) # "" THEN "alone:" \o DcWhy(StmtValue(a))
+          ELSE IF DcWhy(StmtValue(k)) # "" THEN "composed:" \o DcWhy(StmtValue(k))
+          ELSE IF StmtValue(a) # StmtValue(k) THEN "composed-differs-from-alone" ELSE "")
   ELSE IF WhyNot(StmtValue(a), d) # "" THEN "alone:" \o WhyNot(StmtValue(a), d)
   ELSE IF WhyNot(StmtValue(k), dd) # "" THEN "composed:" \o WhyNot(StmtValue(k), dd)
   ELSE IF ~a.abs.related /\ StmtValue(a) # StmtValue(k) THEN "composed-differs-from-alone"
